@@ -69,7 +69,8 @@ def _prune(variant, keep):
         if d != keep and os.path.isdir(d):
             # only prune old ones (another tree hash), never one in use right now
             try:
-                if time.time() - os.path.getmtime(d) > 6 * 3600:
+                m = os.path.join(d, '.used')
+                if time.time() - os.path.getmtime(m if os.path.exists(m) else d) > 6 * 3600:
                     shutil.rmtree(d, ignore_errors=True)
             except OSError:
                 pass
@@ -82,8 +83,13 @@ def backend(variant='asan'):
     d = os.path.join(BUILD, '%s-%s' % (variant, h))
     so = os.path.join(d, '_cffi_backend' + conf['ext'])
     if os.path.exists(so):
+        # mark as in use for _prune().  Not os.utime(d): the directory is on the children's
+        # sys.path and importlib re-lists a path entry whose mtime changes, which made
+        # syscall sequences of running children non-reproducible (C23's strace part).
         try:
-            os.utime(d)          # mark as in use: _prune() goes by directory mtime
+            with open(os.path.join(d, '.used'), 'a'):
+                pass
+            os.utime(os.path.join(d, '.used'))
         except OSError:
             pass
         return d
